@@ -304,10 +304,11 @@ pub fn check_estep(instr: &ExecInstruction, op: EOp, pre: EModel) {
         }
         Err(e) => {
             let (fatal, f) = classify(&e);
+            // (error class first: in the C03 build the C01 conditions below are assumptions and would cut this path)
+            crate::a03!(fatal == (f == Some(Fault::Overflow)), "C03 error class: only a stack overflow may be fatal");
             crate::a01!(exp.fault.is_some(), "C01 exec instruction failed although its action table prescribes success");
             let kind_ok = if exp.any_underflow { matches!(f, Some(Fault::Underflow { .. })) } else { f.is_some() && (f == exp.fault || f == exp.alt) };
             crate::a01!(kind_ok, "C01 exec instruction: error kind / payload differs from the prescribed one");
-            crate::a03!(fatal == (f == Some(Fault::Overflow)), "C03 error class: only a stack overflow may be fatal");
             let mut s = e.into_state();
             let d = ediff(&mut s, &pre);
             crate::a02!(d & 1 == 0, "C02 exec stack (contents or limit) changed by a failed instruction");
